@@ -201,8 +201,9 @@ class Ctx:
                     # inner loop back edge: the inner header is already on the path; leave the inner loop
                     continue
                 else:
-                    if f.nodes[s].kind == 'except' and nd.kind != 'try' and not isinstance(nd.stmt, ast.Raise):
-                        continue        # implicit exceptions are not path-enumerated
+                    if f.nodes[s].kind == 'except' and nd.kind != 'try' and not isinstance(nd.stmt, ast.Raise) \
+                            and not _has_index_call(nd):
+                        continue        # implicit exceptions are not path-enumerated (except X.index(y): ValueError)
                     rec(s, path)
         for s in first:
             rec(s, [])
@@ -217,6 +218,17 @@ def loop_vars(f, loop):
         if d.node == loop.id and d.kind == 'for':
             out[d.name] = TermBuilder(f, d.node).def_term(d.id)
     return out
+
+
+def _has_index_call(nd):
+    st = nd.stmt
+    if st is None or nd.kind not in ('stmt', 'test'):
+        return False
+    root = nd.ast if nd.kind == 'test' else st
+    for x in ast.walk(root):
+        if isinstance(x, ast.Call) and isinstance(x.func, ast.Attribute) and x.func.attr == 'index':
+            return True
+    return False
 
 
 def _as_load(node):
